@@ -5,7 +5,19 @@ copy of the registration history), and the replay of the two known findings (D19
 
 Scenario = {"impls": {g: {"reads": [[key, default|None], ...], "bad": [key, value]|None}},
             "ops": [...]}  (plain JSON; see `render_op` for the operation forms).
-Atoms: option key k <-> "K<k>"; value/alias atom n <-> n (odd) or "v<n>" (even)."""
+Atoms: option key k <-> "K<k>"; value/alias atom n <-> n (odd) or "v<n>" (even).
+
+A scenario may carry "enc" (how the atoms are realised as Python objects; the Coq term is the same,
+the realisation is a bijection on atoms, so the model covers these histories unchanged):
+  absent / None : scalars as above (values and aliases alike);
+  "tuple"       : EVERY value/alias atom n is the composite (tuple) tv(n) = (pv(n), n % 3): option
+                  values, Option defaults, domains and aliases are tuples, any dispatch form;
+  "tupleds"     : option values stay scalars, every dispatch is a dataset that BUILDS the composite
+                  tv(z) from its option z, and every alias is the tuple tv(a) (only the dataset and
+                  the no-dispatch forms occur in such a scenario).
+A scenario with "model": False uses dispatch forms the model cannot express (["pair", ...]: a
+dispatch dataset combining TWO options into a pair; aliases are pairs [a, b]); it is run through the
+implementation and the property's oracle only."""
 import copy
 
 import lib
@@ -23,8 +35,18 @@ def pv(n):
     return n if n % 2 else f"v{n}"
 
 
+def tv(n):
+    """the composite (tuple) realisation of atom n"""
+    return (pv(n), n % 3)
+
+
 def atom(x):
     if isinstance(x, bool):
+        return -1
+    if isinstance(x, tuple):
+        if len(x) == 2 and not isinstance(x[0], (tuple, bool)):
+            n = atom(x[0])
+            return n if (n >= 0 and x == tv(n)) else -1
         return -1
     if isinstance(x, int):
         return x
@@ -37,8 +59,25 @@ def key(k):
     return f"K{k}"
 
 
-def pyopts(o):
-    return {key(k): pv(v) for k, v in o}
+def val_enc(enc):
+    """atom -> Python object in option-value position"""
+    return tv if enc == "tuple" else pv
+
+
+def alias_enc(enc):
+    """atom (or, for the two-option dispatch, a pair of atoms) -> Python object in alias position"""
+    one = tv if enc in ("tuple", "tupleds") else pv
+
+    def f(a):
+        if isinstance(a, (list, tuple)):
+            return tuple(pv(x) for x in a)
+        return one(a)
+    return f
+
+
+def akey(a):
+    """hashable form of a scenario alias (pairs arrive as JSON lists)"""
+    return tuple(a) if isinstance(a, list) else a
 
 
 def _labrea():
@@ -54,11 +93,18 @@ def _labrea():
 
 # ----------------------------------------------------------------------------- dispatch forms
 
+def disp_keys(e):
+    """the option keys a dispatch form reads"""
+    if e[0] == "missing":
+        return []
+    return [e[1], e[3]] if e[0] == "pair" else [e[1]]
+
+
 def dispatch_safe(e):
     """Python copy of Model/Dispatch.v dispatch_safe (zone of D19 = not safe)."""
     k = e[0]
-    if k in ("key", "keydef", "missing"):
-        return True
+    if k in ("key", "keydef", "missing", "pair"):
+        return True          # pair: fails only when one of its keys is ABSENT (never on a present value)
     if k == "keydom":
         return e[2] is None or e[2] not in e[3]
     if k == "dataset":
@@ -71,6 +117,10 @@ def ref_dispatch(e, o):
     k = e[0]
     if k == "missing":
         return ("v", 0)
+    if k == "pair":          # ["pair", k1, d1|None, k2, d2|None]: the pair of the two option values
+        v1 = o.get(e[1], e[2])
+        v2 = o.get(e[3], e[4])
+        return ("f",) if (v1 is None or v2 is None) else ("v", (v1, v2))
     val = o.get(e[1])
     if k == "key":
         return ("v", val) if val is not None else ("f",)
@@ -92,9 +142,12 @@ def ref_dispatch(e, o):
 class World:
     """Live labrea objects for one scenario, built through the public API only."""
 
-    def __init__(self, L, impls):
+    def __init__(self, L, impls, enc=None):
         self.L = L
         self.impls = {int(g): d for g, d in impls.items()}
+        self.enc = enc
+        self.val = val_enc(enc)        # atom -> object in option-value position
+        self.alias = alias_enc(enc)    # atom -> object in alias position
         self.D = {}
         self.I = {}
         self.labels = {}
@@ -110,13 +163,14 @@ class World:
         d = self.impls[g]
         reads = [tuple(r) for r in d["reads"]]
         bad = tuple(d["bad"]) if d.get("bad") else None
-        optsl = [L["Option"](key(k)) if df is None else L["Option"](key(k), pv(df)) for k, df in reads]
+        val = self.val
+        optsl = [L["Option"](key(k)) if df is None else L["Option"](key(k), val(df)) for k, df in reads]
         events = self.events
 
         def finish(vals):
             events.append(("body", g))
             pairs = tuple((k, v) for (k, _), v in zip(reads, vals))
-            if bad is not None and (bad[0], pv(bad[1])) in pairs:
+            if bad is not None and (bad[0], val(bad[1])) in pairs:
                 raise RuntimeError("body raises on this value")
             return ("t", g, pairs)
 
@@ -170,9 +224,23 @@ class World:
             self.label(self.fobj[g], f"f{g}")
         return self.fobj[g]
 
+    def pyopts(self, o):
+        return {key(k): self.val(v) for k, v in o}
+
     def disp_obj(self, e, allow_str=False):
         L = self.L
         k = e[0]
+        pv = self.val
+        if self.enc == "tupleds":
+            assert k == "dataset", "a 'tupleds' scenario only has dataset dispatches"
+        if k == "pair":
+            o1 = L["Option"](key(e[1])) if e[2] is None else L["Option"](key(e[1]), pv(e[2]))
+            o2 = L["Option"](key(e[3])) if e[4] is None else L["Option"](key(e[3]), pv(e[4]))
+
+            def disp2(x=o1, y=o2):
+                return (x, y)
+            self.keep.append(disp2)
+            return L["dataset"](disp2)
         if k == "key":
             return key(e[1]) if (allow_str and e[2] == "str") else L["Option"](key(e[1]))
         if k == "keydef":
@@ -184,10 +252,12 @@ class World:
             bad = [pv(x) for x in e[3]]
             opt = L["Option"](key(e[1])) if e[2] is None else L["Option"](key(e[1]), pv(e[2]))
 
+            composite = self.enc == "tupleds"
+
             def disp(z=opt):
                 if z in bad:
                     raise RuntimeError("dispatch dataset raises on this value")
-                return z
+                return (z, atom(z) % 3) if composite else z     # = tv(atom(z)): the composite dispatch value
             self.keep.append(disp)
             return L["dataset"](disp)
         raise AssertionError(e)
@@ -223,12 +293,12 @@ class World:
             return "ok"
         if k == "register":
             _, d, a, i = op
-            self.D[d].register(pv(a), self.impl_obj(i))
+            self.D[d].register(self.alias(a), self.impl_obj(i))
             return "ok"
         if k in ("overload", "overload_ds"):
             d, als = op[1], op[2]
             aslist = op[5] if k == "overload" else op[4]
-            alias = [pv(a) for a in als] if (aslist or len(als) != 1) else pv(als[0])
+            alias = [self.alias(a) for a in als] if (aslist or len(als) != 1) else self.alias(als[0])
             try:
                 deco = self.D[d].overload(alias)
             except ValueError:
@@ -244,7 +314,7 @@ class World:
             return "ok"
         if k == "with_options":
             _, d2, d, p = op
-            obj = self.D[d].with_options(pyopts(p))
+            obj = self.D[d].with_options(self.pyopts(p))
             self.register_ds(d2, obj, fresh_effect=False)
             self.cache_label[d2] = self.cache_label[d]
             return "ok"
@@ -291,7 +361,7 @@ class World:
                     ns[name] = self.impl_obj(i)
                 elif form == "dataset":
                     ns[name] = staticmethod(self.D[i[1]]) if (n % 2) else self.D[i[1]]
-            alias = [pv(a) for a in als] if (style == "list" or len(als) != 1) else pv(als[0])
+            alias = [self.alias(a) for a in als] if (style == "list" or len(als) != 1) else self.alias(als[0])
             self.counter += 1
             cls = type(f"Impl_{self.counter}", (), ns)
             try:
@@ -312,7 +382,7 @@ class World:
     def do_eval(self, d, o):
         start = len(self.events)
         try:
-            r = self.D[d].evaluate(pyopts(o))
+            r = self.D[d].evaluate(self.pyopts(o))
         except Exception as e:  # noqa
             return ("e", self.classify(e))
         miss = ("miss", self.cache_label[d]) in self.events[start:]
@@ -370,8 +440,9 @@ class Ref:
     derivative shares its base's table object and cache (as documented for Dataset.overloads /
     Dataset.cache); set_dispatch gives the dataset a copy of the table."""
 
-    def __init__(self, impls):
+    def __init__(self, impls, val=pv):
         self.impls = {int(g): d for g, d in impls.items()}
+        self.val = val             # how value atoms are realised (only to compare with the implementation's values)
         self.ds = {}
         self.ifs = {}
 
@@ -412,14 +483,14 @@ class Ref:
             self.new(op[1], op[2], tuple(op[3]) if op[3] else None, op[4])
             return "ok"
         if k == "register":
-            self.ds[op[1]]["tbl"][op[2]] = tuple(op[3])
+            self.ds[op[1]]["tbl"][akey(op[2])] = tuple(op[3])
             return "ok"
         if k in ("overload", "overload_ds"):
             d, als = op[1], op[2]
             if k == "overload":
                 self.new(op[3], ["missing"], ("f", op[4]), None)
             for a in als:
-                self.ds[d]["tbl"][a] = ("d", op[3])
+                self.ds[d]["tbl"][akey(a)] = ("d", op[3])
             return "ok"
         if k == "set_dispatch":
             x = self.ds[op[1]]
@@ -454,7 +525,7 @@ class Ref:
             for n, i in provided.items():
                 for d in names.get(n, []):
                     for a in als:
-                        self.ds[d]["tbl"][a] = i
+                        self.ds[d]["tbl"][akey(a)] = i
             return "ok"
         return None
 
@@ -469,9 +540,9 @@ class Ref:
             v = o.get(k, df)
             if v is None:
                 return ("e",), (tuple(i),)
-            pairs.append((k, pv(v)))
+            pairs.append((k, self.val(v)))
         bad = dsc.get("bad")
-        if bad and (bad[0], pv(bad[1])) in pairs:
+        if bad and (bad[0], self.val(bad[1])) in pairs:
             return ("e",), (tuple(i),)
         return ("v", ("t", i[1], tuple(pairs))), (tuple(i),)
 
@@ -641,8 +712,8 @@ def verify(ref, w, impls, legit, missed, d, o, actual, new_recs, taints, top=Tru
 def run_impl(L, sc):
     """implementation observations (one string per op) + the oracle's candidate violations"""
     impls = {int(g): d for g, d in sc["impls"].items()}
-    w = World(L, impls)
-    ref = Ref(impls)
+    w = World(L, impls, sc.get("enc"))
+    ref = Ref(impls, w.val)
     lines = []
     cands = []   # dicts: op index, desc, zone ('D19'|'D22'|None), detail
     legit = {}   # cache -> list of records (value, outcome, disp)
@@ -705,7 +776,7 @@ def run_impl(L, sc):
                                     continue
                                 lk = w.D[d].overloads.lookup
                                 for a in op[2]:
-                                    if pv(a) not in lk or w.labels.get(id(lk[pv(a)])) != (f"f{i[1]}" if i[0] == "f" else f"d{i[1]}"):
+                                    if w.alias(a) not in lk or w.labels.get(id(lk[w.alias(a)])) != (f"f{i[1]}" if i[0] == "f" else f"d{i[1]}"):
                                         cands.append(dict(op=idx, zone=None, member=n, alias=a, dataset=d,
                                                           desc="accepted implementation did not register a provided member under every alias on every interface"))
         if k == "eval":
@@ -736,12 +807,14 @@ def check_scenarios(ctx, L, scs, name):
             impl.append(run_impl(L, sc))
         except Exception as e:  # harness/generator problem or an unexpected raw exception
             impl.append((["harness-exception:" + repr(e)], [dict(op=-1, zone=None, desc="unexpected exception while driving the public API: " + repr(e))], dict(evals=0, hits=0, fails=0, rejected=0, regs=0)))
-    model = ctx.coq_eval(name, REQUIRES, PRELUDE, [render_scenario(sc) for sc in scs], shard=40)
+    modelled = [sc for sc in scs if sc.get("model", True)]
+    mres = iter(ctx.coq_eval(name, REQUIRES, PRELUDE, [render_scenario(sc) for sc in modelled], shard=40) if modelled else [])
+    model = [next(mres) if sc.get("model", True) else None for sc in scs]
     out = []
     for sc, (lines, cands, stats), ml in zip(scs, impl, model):
-        mlines = ml.split(";")
+        mlines = ml.split(";") if ml is not None else None     # None: oracle-only scenario (a form the model cannot express)
         mism = None
-        if mlines != lines:
+        if mlines is not None and mlines != lines:
             first = next((i for i, (a, b) in enumerate(zip(lines, mlines)) if a != b), min(len(lines), len(mlines)))
             mism = dict(where="Model/Dispatch.v vs labrea (overload/dataset/interface)", scenario=sc, first_differing_op=first,
                         op=sc["ops"][first] if first < len(sc["ops"]) else None,
@@ -750,7 +823,7 @@ def check_scenarios(ctx, L, scs, name):
         viols = []
         for c in cands:
             i = c["op"]
-            agree = 0 <= i < len(lines) and i < len(mlines) and lines[i] == mlines[i]
+            agree = mlines is not None and 0 <= i < len(lines) and i < len(mlines) and lines[i] == mlines[i]
             finding = c["zone"] if (c["zone"] and agree) else None
             viols.append(dict(desc=c["desc"], finding=finding, scenario=sc, op_index=i,
                               detail={k: v for k, v in c.items() if k not in ("desc", "zone", "op")},
@@ -778,10 +851,17 @@ IMPL_SHAPES = [
 ]
 
 
+PAIR_VALS = [1, 2, 3]
+
+
 class Gen:
-    def __init__(self, rng, zone=None):
+    def __init__(self, rng, zone=None, enc=None, own=False, pair=False):
         self.rng = rng
         self.zone = zone           # None | 'D19' | 'D22'
+        self.enc = enc             # None | 'tuple' | 'tupleds' (realisation of the atoms, see the module docstring)
+        self.own = own             # interface members declared as datasets that already carry a dispatch of their own
+        self.pair = pair           # two-option composite dispatch values (oracle-only)
+        self.extra = set()         # option keys some member dispatched on before it was moved into an interface
         self.impls = {}
         self.ops = []
         self.ref = Ref({})
@@ -818,6 +898,17 @@ class Gen:
         self.ref.apply(op)
 
     def gen_disp(self, k=20):
+        if self.enc == "tupleds":      # the dispatch dataset builds the composite value from its option
+            if self.rng.random() < 0.6:
+                return ["dataset", k, None, sorted(self.rng.sample(VALS, self.rng.choice([0, 1, 2])))]
+            return ["dataset", k, self.rng.choice(VALS), []]
+        if self.pair:
+            q = self.rng.random()
+            if q < 0.7:
+                return ["pair", k, self.rng.choice([None, None] + PAIR_VALS), 22, self.rng.choice([None, None] + PAIR_VALS)]
+            if q < 0.85:
+                return ["key", k, self.rng.choice(["str", "opt"])]
+            return ["keydef", k, self.rng.choice(VALS)]
         r = self.rng.random()
         if self.zone == "D19" and r < 0.8:
             if self.rng.random() < 0.5:
@@ -855,6 +946,12 @@ class Gen:
                     stack.append(i[1])
         return False
 
+    def aliases_for(self, e, n):
+        """n distinct aliases in the value space of the dispatch form e"""
+        if e[0] == "pair":
+            return self.rng.sample([[a, b] for a in PAIR_VALS for b in PAIR_VALS], n)
+        return self.rng.sample(VALS, n)
+
     def can_register(self, d, d0):
         return not self.reaches(d0, self.ref.ds[d]["tbl"])
 
@@ -866,10 +963,26 @@ class Gen:
              11: rng.choice([1, 2]) if rng.random() < 0.4 else None,
              12: 1 if rng.random() < 0.15 else None}
         e = x["disp"]
-        if e[0] != "missing":
+        if e[0] == "pair":
+            k1, k2 = e[1], e[3]
+            mode = want or rng.choice(["registered", "registered", "unregistered", "absent", "any", "swapped"])
+            reg = [a for a in x["tbl"] if isinstance(a, tuple)]
+            if mode in ("registered", "swapped") and reg:
+                a = rng.choice(reg)
+                o[k1], o[k2] = (a[1], a[0]) if mode == "swapped" else a
+                if e[2] == o[k1] and rng.random() < 0.5:
+                    o[k1] = None          # the Option's own default supplies this component
+                if e[4] == o[k2] and rng.random() < 0.5:
+                    o[k2] = None
+            elif mode == "absent":
+                o[k1] = rng.choice([None, rng.choice(PAIR_VALS)])
+                o[k2] = None if o[k1] is not None or rng.random() < 0.5 else rng.choice(PAIR_VALS)
+            else:
+                o[k1], o[k2] = rng.choice(PAIR_VALS + [4]), rng.choice(PAIR_VALS + [4])
+        elif e[0] != "missing":
             k = e[1]
             mode = want or rng.choice(["registered", "registered", "unregistered", "absent", "any"])
-            reg = [a for a in x["tbl"]]
+            reg = [a for a in x["tbl"] if not isinstance(a, tuple)]
             if mode == "registered" and reg:
                 o[k] = rng.choice(reg)
             elif mode == "unregistered":
@@ -881,6 +994,9 @@ class Gen:
                 o[k] = rng.choice(VALS)
         if rng.random() < 0.15:
             o[21] = rng.choice(VALS)
+        for k in sorted(self.extra):       # keys a member dispatched on in its pre-interface life
+            if k not in disp_keys(e) and rng.random() < 0.6:
+                o[k] = rng.choice(VALS)
         return sorted((k, v) for k, v in o.items() if v is not None)
 
     def note_eval(self, d, o):
@@ -902,7 +1018,8 @@ class Gen:
         self.eval_op(d, o)
         if x["disp"][0] == "missing":
             return
-        k = x["disp"][1]
+        ks = disp_keys(x["disp"])
+        k = ks[0] if len(ks) == 1 else rng.choice(ks)
         base = [p for p in o if p[0] != k]
         variants = []
         for v in rng.sample(VALS, 3):
@@ -940,13 +1057,19 @@ class Gen:
     def op_register(self, d):
         rng = self.rng
         x = self.ref.ds[d]
-        a = rng.choice(list(x["tbl"]) if (x["tbl"] and rng.random() < 0.35) else VALS)   # re-registration of an alias
+        if x["disp"][0] == "pair":
+            a = rng.choice([list(t) for t in x["tbl"] if isinstance(t, tuple)] or [[1, 1]]) if (x["tbl"] and rng.random() < 0.35) \
+                else self.aliases_for(x["disp"], 1)[0]
+        else:
+            a = rng.choice(list(x["tbl"]) if (x["tbl"] and rng.random() < 0.35) else VALS)   # re-registration of an alias
+            if isinstance(a, tuple):
+                a = list(a)
         self.emit(["register", d, a, self.some_impl(d)])
 
     def op_overload(self, d):
         rng = self.rng
         n = rng.choice([1, 1, 2, 3])
-        als = rng.sample(VALS, n)
+        als = self.aliases_for(self.ref.ds[d]["disp"], n)
         d2 = self.fresh_ds()
         self.emit(["overload", d, als, d2, self.new_impl(), bool(rng.random() < 0.3)])
         if self.ref.ds[d]["disp"][0] == "missing":
@@ -956,7 +1079,7 @@ class Gen:
             others = [x for x in self.ref.ds if self.ref.ds[x]["disp"][0] != "missing" and self.can_register(x, d2)]
             if others:
                 t = rng.choice(others)
-                self.emit(["overload_ds", t, rng.sample(VALS, rng.choice([1, 2])), d2, bool(rng.random() < 0.3)])
+                self.emit(["overload_ds", t, self.aliases_for(self.ref.ds[t]["disp"], rng.choice([1, 2])), d2, bool(rng.random() < 0.3)])
 
     def op_set_dispatch(self, d):
         self.emit(["set_dispatch", d, self.gen_disp(self.rng.choice([20, 21]))])
@@ -998,7 +1121,19 @@ class Gen:
                 if rng.random() < 0.6:
                     cb = self.next_cb
                     self.next_cb += 1
-                self.emit(["new", d, ["missing"], None if kind == "existing_abs" else ["f", self.new_impl()], cb])
+                e0 = ["missing"]
+                if self.own and rng.random() < 0.75:
+                    # a dataset moved into the interface from a life of its own: it already has a
+                    # dispatch (another key and/or another form) and possibly registrations
+                    e0 = self.gen_disp(rng.choice([20, 21, 23]))
+                    self.extra.update(disp_keys(e0))
+                self.emit(["new", d, e0, None if kind == "existing_abs" else ["f", self.new_impl()], cb])
+                if e0[0] != "missing":
+                    for _ in range(rng.choice([0, 0, 1, 2])):
+                        if rng.random() < 0.5:
+                            self.op_register(d)
+                        else:
+                            self.op_overload(d)
                 ms.append([n, "existing", d, None])
             elif kind == "abstract":
                 ms.append([n, "abstract", self.fresh_ds(), None])
@@ -1047,7 +1182,7 @@ class Gen:
         if mode == "unknown":
             prov.append([self.next_name + 50, ["f", self.new_impl()], "func"])
         rng.shuffle(prov)
-        als = rng.sample(VALS, rng.choice([1, 1, 2]))
+        als = self.aliases_for(self.ref.ifs[ifs[0]]["disp"], rng.choice([1, 1, 2]))
         style = rng.choice(["single", "list", "implements"])
         self.emit(["implement", ifs, als, prov, style])
 
@@ -1073,6 +1208,10 @@ class Gen:
             elif r < 0.36:
                 cands = [x for x in bases if x not in self.frozen and
                          (self.zone == "D22" or self.ref.ds[x]["cache"] not in self.touched)]
+                if self.pair:
+                    # oracle-only histories stay strictly outside the zone of D22 (no model to confirm
+                    # the attribution): no set_dispatch on a dataset whose cache a derivative shares
+                    cands = [x for x in cands if x not in self.derived]
                 if cands:
                     self.op_set_dispatch(rng.choice(cands))
             elif r < 0.43:
@@ -1142,14 +1281,30 @@ class Gen:
             self.eval_op(d, seen[-1])
 
     def scenario(self):
-        return dict(impls={str(g): d for g, d in self.impls.items()}, ops=self.ops)
+        sc = dict(impls={str(g): d for g, d in self.impls.items()}, ops=self.ops)
+        if self.enc:
+            sc["enc"] = self.enc
+        if self.pair:
+            sc["model"] = False
+        return sc
 
 
 def gen_scenario(rng, profile):
     zone = {"zone19": "D19", "zone22": "D22"}.get(profile)
-    g = Gen(rng, zone)
+    if profile == "tuple":                 # composite (tuple) values everywhere: options, defaults, domains, aliases
+        g = Gen(rng, enc="tuple")
+    elif profile == "tupleds":             # scalar options, a dispatch dataset building the composite value, tuple aliases
+        g = Gen(rng, enc="tupleds")
+    elif profile == "interface_tuple":
+        g = Gen(rng, enc=rng.choice(["tuple", "tupleds"]), own=rng.random() < 0.3)
+    elif profile == "interface_own":       # members that carry a dispatch of their own into the interface
+        g = Gen(rng, enc=rng.choice([None, None, "tuple"]), own=True)
+    elif profile in ("pair", "interface_pair"):   # two-option composite dispatch values; oracle-only
+        g = Gen(rng, pair=True, own=rng.random() < 0.4)
+    else:
+        g = Gen(rng, zone)
     n = rng.randint(5, 30)
-    if profile == "interface":
+    if profile.startswith("interface"):
         g.interface_history(n)
     elif profile == "zone22" and rng.random() < 0.6:
         g.zone22_history(n)
@@ -1237,6 +1392,67 @@ def fixed_scenarios():
     return out
 
 
+def fixed_scenarios_families():
+    """One always-run representative per input family added in round 2 (the random streams
+    'tuple', 'tupleds', 'interface_tuple', 'interface_own', 'pair', 'interface_pair' draw from the
+    same families)."""
+    rd = dict(reads=[[10, None]], bad=None)
+    out = []
+    # composite (tuple) dispatch values: a bare tuple alias is ONE alias; a list of tuples registers
+    # each; the components of a tuple alias select nothing
+    hist = [
+        ["overload", 1, [5], 2, 2, False],             # @d.overload(tv(5)): a bare tuple
+        ["overload", 1, [2, 4], 3, 3, True],           # @d.overload([tv(2), tv(4)])
+        ["register", 1, 6, ["f", 4]],
+        ["eval", 1, [[10, 1], [20, 5]], None], ["eval", 1, [[10, 1], [20, 2]], None], ["eval", 1, [[10, 1], [20, 4]], None],
+        ["eval", 1, [[10, 1], [20, 6]], None], ["eval", 1, [[10, 1], [20, 3]], None], ["eval", 1, [[10, 1]], None],
+        ["new", 4, None, None, 8],                     # abstract, with a callback (dispatch filled in below)
+        ["overload", 4, [3], 5, 2, False],
+        ["overload_ds", 4, [1], 2, False],             # stacked: the same overload under a bare tuple alias of another dataset
+        ["eval", 4, [[10, 2], [20, 3]], None], ["eval", 4, [[10, 2], [20, 1]], None], ["eval", 4, [[10, 2], [20, 5]], None],
+        ["eval", 4, [[10, 2]], None],
+    ]
+    for enc, e in (("tuple", ["key", 20, "str"]), ("tuple", ["keydef", 20, 5]), ("tuple", ["keydom", 20, None, [2, 3, 5, 6]]),
+                   ("tupleds", ["dataset", 20, None, []]), ("tupleds", ["dataset", 20, 5, []])):
+        ops = [["new", 1, e, ["f", 1], None]] + copy.deepcopy(hist)
+        ops[10][2] = e
+        out.append(dict(profile="fixed:" + enc, enc=enc, impls={"1": rd, "2": rd, "3": rd, "4": rd}, ops=ops))
+    # interface members that had a dispatch (and registrations) of their own before the interface took
+    # them: every member resolves by the INTERFACE's dispatch, whatever the former keys say
+    for enc in (None, "tuple"):
+        out.append(dict(profile="fixed:own", impls={str(g): rd for g in range(1, 9)}, **({"enc": enc} if enc else {}), ops=[
+            ["new", 1, ["key", 21, "opt"], None, None],
+            ["new", 2, ["keydef", 23, 5], ["f", 1], 7],
+            ["overload", 2, [5], 5, 2, False],
+            ["register", 2, 6, ["f", 3]],
+            ["interface", 1, ["key", 20, "str"], [[101, "existing", 1, None], [102, "existing", 2, None],
+                                                   [103, "abstract", 3, None], [104, "default", 4, 4]]],
+            ["implement", [1], [5], [[101, ["f", 5], "func"], [103, ["f", 6], "func"]], "single"],
+            ["implement", [1], [2, 4], [[101, ["f", 7], "func"], [103, ["f", 6], "func"], [102, ["f", 8], "func"]], "list"],
+            ["eval", 1, [[10, 1], [20, 5]], 1], ["eval", 2, [[10, 1], [20, 5]], 1], ["eval", 3, [[10, 1], [20, 5]], 1], ["eval", 4, [[10, 1], [20, 5]], 1],
+            ["eval", 1, [[10, 2], [20, 2], [21, 5], [23, 6]], 1], ["eval", 2, [[10, 2], [20, 2], [21, 5], [23, 6]], 1],
+            ["eval", 3, [[10, 2], [20, 2], [21, 5], [23, 6]], 1],
+            ["eval", 2, [[10, 3], [20, 3], [23, 5]], 1], ["eval", 2, [[10, 3], [20, 6]], 1], ["eval", 2, [[10, 3]], 1],
+            ["eval", 1, [[10, 3], [21, 5]], 1], ["eval", 1, [[10, 3], [20, 3], [21, 5]], 1],
+        ]))
+    # two-option composite dispatch values (oracle-only: Model/Dispatch.v has no two-key dispatch form)
+    for e in (["pair", 20, None, 22, 2], ["pair", 20, None, 22, None], ["pair", 20, 1, 22, 2]):
+        out.append(dict(profile="fixed:pair", model=False, impls={"1": rd, "2": rd, "3": rd, "4": rd}, ops=[
+            ["new", 1, e, ["f", 1], 9],
+            ["overload", 1, [[1, 2]], 2, 2, False],            # @d.overload((1, "v2")): ONE alias
+            ["overload", 1, [[2, 1], [2, 2]], 3, 3, True],
+            ["register", 1, [3, 3], ["f", 4]],
+            ["eval", 1, [[10, 1], [20, 1], [22, 2]], None], ["eval", 1, [[10, 1], [20, 1]], None],
+            ["eval", 1, [[10, 1], [20, 2], [22, 1]], None], ["eval", 1, [[10, 1], [20, 2]], None],
+            ["eval", 1, [[10, 1], [20, 1], [22, 1]], None], ["eval", 1, [[10, 1], [20, 3], [22, 3]], None],
+            ["eval", 1, [[10, 1]], None], ["eval", 1, [[10, 1], [22, 2]], None], ["eval", 1, [[10, 1], [20, 1], [22, 2]], None],
+            ["new", 4, e, None, None],
+            ["overload", 4, [[1, 2]], 5, 2, False],
+            ["eval", 4, [[10, 2], [20, 1], [22, 2]], None], ["eval", 4, [[10, 2], [20, 2], [22, 1]], None], ["eval", 4, [[10, 2]], None],
+        ]))
+    return out
+
+
 def pair_scenarios():
     """Exhaustive small scope: every dispatch form x every ordered pair of dictionaries over
     {dispatch key absent / registered 5 / registered 6 / unregistered 3 / 4} x {K10 = 1, 2} x
@@ -1295,6 +1511,13 @@ def run(ctx):
             scs.append(gen_scenario(rng, profile))
     pairs = pair_scenarios()
     scs += rng.sample(pairs, 300) if ctx.quick else pairs
+    # round-2 input families (generated after the older streams, which therefore stay as they were)
+    scs += fixed_scenarios_families()
+    n2 = dict(tuple=45, tupleds=35, interface_tuple=30, interface_own=60, pair=35, interface_pair=20) if ctx.quick else \
+        dict(tuple=1500, tupleds=1200, interface_tuple=1000, interface_own=2000, pair=1200, interface_pair=700)
+    for profile, cnt in n2.items():
+        for _ in range(cnt):
+            scs.append(gen_scenario(rng, profile))
     res = check_scenarios(ctx, L, scs, "Cases_C07")
     mism = [r["mismatch"] for r in res if r["mismatch"]]
     violations = [v for r in res for v in r["violations"]]
@@ -1313,11 +1536,20 @@ def run(ctx):
                 violations.append(v)
 
     dist = dict(profiles={}, ops={}, evals=0, hits=0, failing_evals=0, rejected_definitions=0, registrations=0,
-                lengths={}, zone_tagged={"D19": 0, "D22": 0})
+                lengths={}, zone_tagged={"D19": 0, "D22": 0}, encodings={}, oracle_only_scenarios=0,
+                bare_tuple_alias_overloads=0, members_with_own_dispatch=0)
     distinct = set()
     evaluations = 0
     for sc, r in zip(scs, res):
         dist["profiles"][sc["profile"].split(":")[0]] = dist["profiles"].get(sc["profile"].split(":")[0], 0) + 1
+        dist["encodings"][sc.get("enc") or "scalar"] = dist["encodings"].get(sc.get("enc") or "scalar", 0) + 1
+        dist["oracle_only_scenarios"] += 0 if sc.get("model", True) else 1
+        own = {op[1] for op in sc["ops"] if op[0] == "new" and op[2][0] != "missing"}
+        for op in sc["ops"]:
+            if op[0] in ("overload", "overload_ds") and len(op[2]) == 1 and not op[-1] and (sc.get("enc") or isinstance(op[2][0], list)):
+                dist["bare_tuple_alias_overloads"] += 1
+            if op[0] == "interface":
+                dist["members_with_own_dispatch"] += sum(1 for m in op[3] if m[1] == "existing" and m[2] in own)
         for op in sc["ops"]:
             dist["ops"][op[0]] = dist["ops"].get(op[0], 0) + 1
         ln = len(sc["ops"])
@@ -1342,8 +1574,9 @@ def run(ctx):
         "evaluations": evaluations,
         "distinct_nontrivial": len(distinct),
         "rule": "histories of 5-30 operations (new dataset / register / @overload with single, list and stacked aliases / set_dispatch / "
-                "with_options / interface definition / implementation incl. multi-interface and rejected ones / evaluate, with stale-hit probes "
-                "changing only the dispatch value); evaluations = operations run on both sides; a history is non-trivial when it has >= 2 "
+                "with_options / interface definition incl. members that already have a dispatch and registrations of their own / implementation incl. multi-interface and rejected ones / "
+                "evaluate, with stale-hit probes changing only the dispatch value; scalar and composite (tuple) dispatch values and aliases, bare and listed); "
+                "evaluations = operations run on both sides; a history is non-trivial when it has >= 2 "
                 "evaluations, >= 1 registration and >= 1 successful evaluation; distinct by hash of (implementation table, operations)",
         "samples": samples,
         "traces_validated_against_impl": len(scs) + 2,
@@ -1354,7 +1587,8 @@ def run(ctx):
         "exhaustive": False,
         "assumptions": [
             "implementations and callbacks are deterministic functions of the options they declare (free-algebra bodies make a wrong implementation, argument or missing callback visible)",
-            "dispatch values and option values are hashable JSON scalars (ints / brace-free strings); option dictionaries are flat",
+            "dispatch values and option values are hashable JSON scalars (ints / brace-free strings) or, in the 'tuple'/'tupleds'/'pair' streams, tuples of such scalars; option dictionaries are flat",
+            "the 'tuple' and 'tupleds' realisations are bijections on the atoms, so the model term of such a history is the scalar one; the two-option dispatch form ('pair') has no model counterpart and is checked by the oracle only",
             "hit/miss of an evaluation is observed through a dataset effect (runs exactly when the value is computed)",
             "a dataset is never (transitively) registered as its own implementation (Python recurses forever; the model runs out of fuel)",
             "reference for with_options derivatives: they share the base's table object and cache; set_dispatch on either side unshares the table (the model records the sharing as the code has it)",
